@@ -541,4 +541,354 @@ def item_c08_lostmap(repo, out):
         out.append('Definition c08%s_src : list string :=\n  [%s].' % (fn, ';\n   '.join(coq_string(x) for x in lines)))
 
 
-ITEMS = [item_c08_error_maps, item_c08_classes, item_c08_absorb, item_c08_npy_protocol, item_c08_checks, item_c08_lostmap]
+# ------------------------------------------------------------------------------------------------
+# S3 wire level: the truncation detector of the read path, the status handling of request(), the PUT side.
+# Templates ignore docstrings, comments, logging calls and the texts of exception messages; they pin classes,
+# guards and statement order.
+
+_LOG_ROOTS = ('logger', 'logging', 'log', 'warnings', '_logger', 'LOGGER')
+
+
+def _is_docstring(st):
+    return isinstance(st, ast.Expr) and isinstance(st.value, ast.Constant) and isinstance(st.value.value, str)
+
+
+def _is_logging(st):
+    if not (isinstance(st, ast.Expr) and isinstance(st.value, ast.Call)):
+        return False
+    f = st.value.func
+    while isinstance(f, ast.Attribute):
+        f = f.value
+    return isinstance(f, ast.Name) and f.id in _LOG_ROOTS
+
+
+def _real(body):
+    """Statements that do something: no docstrings, no logging calls, no `pass`."""
+    return [st for st in body if not (_is_docstring(st) or _is_logging(st) or isinstance(st, ast.Pass))]
+
+
+def _norm_lines(stmts, depth, out, what):
+    """Normalised source: one line per simple statement / compound header, two spaces per nesting level.
+    `raise C(<anything>) [from x]` becomes `raise C(...)`; an assert loses its message; docstrings, logging calls
+    and `pass` are dropped.  Unknown statement kinds fail closed."""
+    for st in _real(stmts):
+        pad = '  ' * depth
+        if isinstance(st, ast.If):
+            node, kw = st, 'if'
+            while True:
+                out.append('%s%s %s:' % (pad, kw, ast.unparse(node.test)))
+                _norm_lines(node.body, depth + 1, out, what)
+                if len(node.orelse) == 1 and isinstance(node.orelse[0], ast.If):
+                    node, kw = node.orelse[0], 'elif'
+                    continue
+                if node.orelse:
+                    out.append('%selse:' % pad)
+                    _norm_lines(node.orelse, depth + 1, out, what)
+                break
+        elif isinstance(st, (ast.For, ast.While)):
+            if st.orelse:
+                raise TranslateError('%s: loop with else' % what)
+            head = ('for %s in %s:' % (ast.unparse(st.target), ast.unparse(st.iter)) if isinstance(st, ast.For)
+                    else 'while %s:' % ast.unparse(st.test))
+            out.append(pad + head)
+            _norm_lines(st.body, depth + 1, out, what)
+        elif isinstance(st, ast.With):
+            out.append('%swith %s:' % (pad, ', '.join(ast.unparse(i) for i in st.items)))
+            _norm_lines(st.body, depth + 1, out, what)
+        elif isinstance(st, ast.Try):
+            out.append(pad + 'try:')
+            _norm_lines(st.body, depth + 1, out, what)
+            for h in st.handlers:
+                out.append('%sexcept %s%s:' % (pad, ast.unparse(h.type) if h.type is not None else '',
+                                               ' as ' + h.name if h.name else ''))
+                _norm_lines(h.body, depth + 1, out, what)
+            if st.orelse:
+                out.append(pad + 'else:')
+                _norm_lines(st.orelse, depth + 1, out, what)
+            if st.finalbody:
+                out.append(pad + 'finally:')
+                _norm_lines(st.finalbody, depth + 1, out, what)
+        elif isinstance(st, ast.Raise):
+            if st.exc is None:
+                out.append(pad + 'raise')
+            elif isinstance(st.exc, ast.Call):
+                out.append('%sraise %s(...)' % (pad, ast.unparse(st.exc.func)))
+            else:
+                out.append('%sraise %s' % (pad, ast.unparse(st.exc)))
+        elif isinstance(st, ast.Assert):
+            out.append('%sassert %s' % (pad, ast.unparse(st.test)))
+        elif isinstance(st, (ast.Assign, ast.AugAssign, ast.AnnAssign, ast.Expr, ast.Return, ast.Continue, ast.Break)):
+            line = ' '.join(ast.unparse(st).split())
+            out.append(pad + line)
+        else:
+            raise TranslateError('%s: unexpected %s statement' % (what, type(st).__name__))
+
+
+def _coq_lines(name, lines):
+    return 'Definition %s : list string :=\n  [%s].' % (name, ';\n   '.join(coq_string(x) for x in lines))
+
+
+def _single_raiser(body, env, what):
+    """The body of a detector `if`: one statement that certainly raises -- `self._raise_incomplete_read(...)` or
+    `raise <Class>(...)`."""
+    body = _real(body)
+    if len(body) != 1:
+        raise TranslateError('%s: the guarded block is not a single raising statement' % what)
+    st = body[0]
+    if isinstance(st, ast.Expr) and _is_self_call(st.value, '_raise_incomplete_read'):
+        return
+    if isinstance(st, ast.Raise) and isinstance(st.exc, ast.Call):
+        _resolve(st.exc.func, env, what)
+        return
+    raise TranslateError('%s: the guarded block does not raise' % what)
+
+
+def _conjuncts(test):
+    if isinstance(test, ast.BoolOp) and isinstance(test.op, ast.And):
+        return sorted(ast.unparse(v) for v in test.values)
+    return [ast.unparse(test)]
+
+
+def item_c08_s3_detect(repo, out):
+    """_DetectTruncation: WHEN a read of the wrapped response counts as truncated.
+
+    read(size):     data = self._readable.read(size, ...); if <guard>: raise; return data
+                    guard `data == b'' and size is not None and size > 0`                  -> "empty"
+    readinto(buf):  view = memoryview(buffer); bytes_read = self._readable.readinto(view, ...);
+                    if <guard>: raise; return bytes_read
+                    guard `bytes_read != view.nbytes` (or `<`)                               -> "count"
+    _raise_incomplete_read: no return / try, every raise is the same class, the LAST statement is an unconditional
+                    raise of it.
+    Any other guard (e.g. one that consults the response's own Content-Length bookkeeping) fails closed."""
+    tree = _parse(repo, S3)
+    env = _imports(tree, S3)
+    cls = _class(tree, '_DetectTruncation', S3)
+    what = '%s: _DetectTruncation' % S3
+    # read
+    body = _real(_func(cls, 'read', S3).body)
+    ok = (len(body) == 3 and isinstance(body[0], ast.Assign) and ast.unparse(body[0].targets[0]) == 'data'
+          and ast.unparse(body[0].value).startswith('self._readable.read(size')
+          and isinstance(body[1], ast.If) and not body[1].orelse
+          and isinstance(body[2], ast.Return) and ast.unparse(body[2].value) == 'data')
+    if not ok:
+        raise TranslateError('%s.read: statement shape not recognised' % what)
+    conj = _conjuncts(body[1].test)
+    if conj in (sorted(["data == b''", 'size is not None', 'size > 0']), sorted(['not data', 'size is not None', 'size > 0']),
+                sorted(['len(data) == 0', 'size is not None', 'size > 0'])):
+        rd = 'empty'
+    else:
+        raise TranslateError('%s.read: truncation guard not recognised: %s' % (what, ast.unparse(body[1].test)))
+    _single_raiser(body[1].body, env, what + '.read')
+    # readinto
+    body = _real(_func(cls, 'readinto', S3).body)
+    ok = (len(body) == 4 and ast.unparse(body[0]) == 'view = memoryview(buffer)'
+          and isinstance(body[1], ast.Assign) and ast.unparse(body[1].targets[0]) == 'bytes_read'
+          and ast.unparse(body[1].value).startswith('self._readable.readinto(view')
+          and isinstance(body[2], ast.If) and not body[2].orelse
+          and isinstance(body[3], ast.Return) and ast.unparse(body[3].value) == 'bytes_read')
+    if not ok:
+        raise TranslateError('%s.readinto: statement shape not recognised' % what)
+    g = ast.unparse(body[2].test)
+    if g in ('bytes_read != view.nbytes', 'view.nbytes != bytes_read', 'bytes_read < view.nbytes', 'view.nbytes > bytes_read'):
+        ri = 'count'
+    else:
+        raise TranslateError('%s.readinto: truncation guard not recognised: %s' % (what, g))
+    _single_raiser(body[2].body, env, what + '.readinto')
+    # _raise_incomplete_read always raises IncompleteRead
+    fn = _func(cls, '_raise_incomplete_read', S3)
+    for n in ast.walk(fn):
+        if isinstance(n, (ast.Return, ast.Try, ast.Yield, ast.YieldFrom)):
+            raise TranslateError('%s._raise_incomplete_read: return / try / yield inside' % what)
+    raises = [n for n in ast.walk(fn) if isinstance(n, ast.Raise)]
+    last = _real(fn.body)[-1]
+    if not (isinstance(last, ast.Raise) and isinstance(last.exc, ast.Call)):
+        raise TranslateError('%s._raise_incomplete_read: does not end with an unconditional raise' % what)
+    names = {(_resolve(r.exc.func, env, what) if r.exc is not None and isinstance(r.exc, ast.Call) else '?') for r in raises}
+    if len(names) != 1 or '?' in names:
+        raise TranslateError('%s._raise_incomplete_read: raises %s' % (what, sorted(names)))
+    out.append('Definition c08_s3_read_rule : string := %s.' % coq_string(rd))
+    out.append('Definition c08_s3_readinto_rule : string := %s.' % coq_string(ri))
+    out.append('Definition c08_s3_incomplete_class : string := %s.' % coq_string(names.pop()))
+    # read_array / _read_chunk: the statements the response-level model was written against
+    for fname in ('read_array', '_read_chunk'):
+        lines = []
+        _norm_lines(_func(tree, fname, S3).body, 0, lines, '%s: %s' % (S3, fname))
+        out.append(_coq_lines('c08_s3_%s_src' % fname.lstrip('_'), lines))
+    # _request: which low-level failures of the body read are re-raised as which urllib3 class
+    fn = _func(tree, '_request', S3)
+    tries = [st for st in _real(fn.body) if isinstance(st, ast.Try)]
+    if len(tries) != 1 or len(_real(fn.body)) != 1:
+        raise TranslateError('%s: _request: body is not a single try statement' % S3)
+    rows = []
+    for h in tries[0].handlers:
+        hb = [st for st in _real(h.body) if not isinstance(st, ast.Assign)]
+        if len(hb) == 1 and isinstance(hb[0], ast.Raise) and isinstance(hb[0].exc, ast.Call):
+            rows.append((_handler_names_loose(h, env), _resolve(hb[0].exc.func, env, '_request handler')))
+        else:
+            rows.append((_handler_names_loose(h, env), 'conditional'))
+    out.append('Definition c08_s3_request_reraise : list (list string * string) := [%s].'
+               % '; '.join('(%s, %s)' % (coq_strings(a), coq_string(b)) for a, b in rows))
+
+
+def _handler_names_loose(h, env):
+    ts = h.type.elts if isinstance(h.type, ast.Tuple) else [h.type]
+    names = []
+    for t in ts:
+        try:
+            names.append(_resolve(t, env, '_request handler'))
+        except TranslateError:
+            names.append(ast.unparse(t))
+    return names
+
+
+def _int_tuple(node, what):
+    if isinstance(node, (ast.Tuple, ast.List)) and all(isinstance(e, ast.Constant) and isinstance(e.value, int)
+                                                       and not isinstance(e.value, bool) for e in node.elts):
+        return [e.value for e in node.elts]
+    raise TranslateError('%s: expected a tuple of integer literals, got %s' % (what, ast.unparse(node)[:60]))
+
+
+def _coq_Zs(l):
+    return '[' + '; '.join('(%d)%%Z' % v for v in l) + ']'
+
+
+def item_c08_s3_status(repo, out):
+    """_raise_for_status(response, chunk_name, ignored_errors): which statuses raise what.
+
+        status = response.status_code
+        if LO <= status < HI and status not in ignored_errors:
+            <statements that only build the message text: ignored>
+            if status in (..): raise A(msg) elif status == N: raise B(msg) else: raise C(msg)
+
+    plus the status force list of the store's Retry object (_DEFAULT_SERVER_GLITCHES) and request()'s body."""
+    tree = _parse(repo, S3)
+    env = _imports(tree, S3)
+    fn = _func(tree, '_raise_for_status', S3)
+    what = '%s: _raise_for_status' % S3
+    if [a.arg for a in fn.args.args] != ['response', 'chunk_name', 'ignored_errors']:
+        raise TranslateError('%s: parameters changed' % what)
+    body = _real(fn.body)
+    if not (len(body) == 2 and ast.unparse(body[0]) == 'status = response.status_code' and isinstance(body[1], ast.If)
+            and not body[1].orelse):
+        raise TranslateError('%s: expected `status = response.status_code` and one if statement' % what)
+    test = body[1].test
+    if not (isinstance(test, ast.BoolOp) and isinstance(test.op, ast.And) and len(test.values) == 2):
+        raise TranslateError('%s: guard is not `LO <= status < HI and status not in ignored_errors`' % what)
+    rng, ign = test.values
+    if ast.unparse(ign) != 'status not in ignored_errors':
+        rng, ign = ign, rng
+    if not (ast.unparse(ign) == 'status not in ignored_errors' and isinstance(rng, ast.Compare) and len(rng.ops) == 2
+            and isinstance(rng.ops[0], ast.LtE) and isinstance(rng.ops[1], ast.Lt)
+            and isinstance(rng.left, ast.Constant) and isinstance(rng.left.value, int)
+            and ast.unparse(rng.comparators[0]) == 'status'
+            and isinstance(rng.comparators[1], ast.Constant) and isinstance(rng.comparators[1].value, int)):
+        raise TranslateError('%s: guard is not `LO <= status < HI and status not in ignored_errors`: %s' % (what, ast.unparse(test)))
+    lo, hi = rng.left.value, rng.comparators[1].value
+    # inside: message construction (assignments to other names, ifs made of such assignments) then ONE raising chain
+    protected = {'status', 'ignored_errors', 'response', 'chunk_name'}
+
+    def only_message(st):
+        if isinstance(st, (ast.Assign, ast.AugAssign)):
+            tg = st.targets if isinstance(st, ast.Assign) else [st.target]
+            return all(isinstance(t, ast.Name) and t.id not in protected for t in tg)
+        if isinstance(st, ast.If):
+            return all(only_message(x) for x in _real(st.body) + _real(st.orelse))
+        return False
+    inner = [st for st in _real(body[1].body) if not only_message(st)]
+    if len(inner) != 1 or not isinstance(inner[0], ast.If) or inner[0] is not _real(body[1].body)[-1]:
+        raise TranslateError('%s: expected message construction followed by one if/elif/else chain of raises' % what)
+    rows = []
+    node = inner[0]
+    other = None
+    while True:
+        t = node.test
+        if (isinstance(t, ast.Compare) and len(t.ops) == 1 and ast.unparse(t.left) == 'status'
+                and isinstance(t.ops[0], ast.In)):
+            codes_ = _int_tuple(t.comparators[0], what)
+        elif (isinstance(t, ast.Compare) and len(t.ops) == 1 and ast.unparse(t.left) == 'status'
+              and isinstance(t.ops[0], ast.Eq) and isinstance(t.comparators[0], ast.Constant)
+              and isinstance(t.comparators[0].value, int)):
+            codes_ = [t.comparators[0].value]
+        else:
+            raise TranslateError('%s: unknown test %s' % (what, ast.unparse(t)))
+
+        def leaf(stmts):
+            stmts = _real(stmts)
+            if len(stmts) == 1 and isinstance(stmts[0], ast.Raise) and isinstance(stmts[0].exc, ast.Call):
+                return _resolve(stmts[0].exc.func, env, what)
+            raise TranslateError('%s: a branch of the chain is not a single `raise Class(...)`' % what)
+        rows.append((codes_, leaf(node.body)))
+        if len(node.orelse) == 1 and isinstance(node.orelse[0], ast.If):
+            node = node.orelse[0]
+            continue
+        if not node.orelse:
+            raise TranslateError('%s: the chain has no else branch (some error statuses would not raise)' % what)
+        other = leaf(node.orelse)
+        break
+    out.append('Definition c08_s3_status_range : Z * Z := ((%d)%%Z, (%d)%%Z).' % (lo, hi))
+    out.append('Definition c08_s3_status_rows : list (list Z * string) := [%s].'
+               % '; '.join('(%s, %s)' % (_coq_Zs(c), coq_string(k)) for c, k in rows))
+    out.append('Definition c08_s3_status_else : string := %s.' % coq_string(other))
+    # the force list
+    from vh.translate import _module_assign
+    gl = _int_tuple(_module_assign(tree, '_DEFAULT_SERVER_GLITCHES', S3), '_DEFAULT_SERVER_GLITCHES')
+    init = _func(_class(tree, 'S3ChunkStore', S3), '__init__', S3)
+    kws = [ast.unparse(k.value) for n in ast.walk(init) if isinstance(n, ast.Call) and ast.unparse(n.func) == '_retry_object'
+           for k in n.keywords if k.arg == 'status_forcelist']
+    if kws != ['_DEFAULT_SERVER_GLITCHES']:
+        raise TranslateError('%s: S3ChunkStore.__init__: status_forcelist of the default Retry object not recognised' % S3)
+    out.append('Definition c08_s3_glitches : list Z := %s.' % _coq_Zs(gl))
+    # request(): statements
+    lines = []
+    _norm_lines(_func(_class(tree, 'S3ChunkStore', S3), 'request', S3).body, 0, lines, '%s: request' % S3)
+    out.append(_coq_lines('c08_s3_request_src', lines))
+
+
+def item_c08_s3_put(repo, out):
+    """The PUT side of S3ChunkStore: put_chunk, mark_complete, create_array, _create_bucket as normalised statements,
+    and for each the (method, ignored_errors) of its unconditional self.request calls in order."""
+    tree = _parse(repo, S3)
+    cls = _class(tree, 'S3ChunkStore', S3)
+    rows = []
+    for name in ('put_chunk', 'mark_complete', 'create_array', '_create_bucket'):
+        fn = _func(cls, name, S3)
+        lines = []
+        _norm_lines(fn.body, 0, lines, '%s: %s' % (S3, name))
+        out.append(_coq_lines('c08_s3_%s_src' % name.lstrip('_'), lines))
+        calls = []
+        for st in _real(fn.body):
+            for n in ast.walk(st):
+                if isinstance(n, (ast.Try, ast.Lambda, ast.FunctionDef)):
+                    raise TranslateError('%s: %s: try / nested function around the requests' % (S3, name))
+            if isinstance(st, ast.If):
+                continue            # optional extras (bucket policy, expiry): off by default, not modelled
+            for n in ast.walk(st):
+                if _is_self_call(n, 'request'):
+                    if not (isinstance(st, ast.Expr) and st.value is n):
+                        raise TranslateError('%s: %s: a request is not a plain statement' % (S3, name))
+                    if not (n.args and isinstance(n.args[0], ast.Constant)):
+                        raise TranslateError('%s: %s: request method is not a literal' % (S3, name))
+                    ign = [k.value for k in n.keywords if k.arg == 'ignored_errors']
+                    if any(k.arg is None for k in n.keywords) or len(n.args) > 2:
+                        raise TranslateError('%s: %s: request called with * / ** arguments' % (S3, name))
+                    calls.append((n.args[0].value, _int_tuple(ign[0], name) if ign else []))
+        rows.append((name, calls))
+    out.append('Definition c08_s3_put_requests : list (string * list (string * list Z)) := [%s].'
+               % '; '.join('(%s, [%s])' % (coq_string(nm), '; '.join('(%s, %s)' % (coq_string(m), _coq_Zs(i)) for m, i in cs))
+                           for nm, cs in rows))
+    # ChunkStore.put_dask_array maps _put_map_blocks over the blocks; _put_map_blocks stores with put_chunk_noraise
+    tree = _parse(repo, CS)
+    lines = []
+    _norm_lines(_func(tree, '_put_map_blocks', CS).body, 0, lines, '%s: _put_map_blocks' % CS)
+    out.append(_coq_lines('c08_put_map_blocks_src', lines))
+    pda = _func(_class(tree, 'ChunkStore', CS), 'put_dask_array', CS)
+    rets = [st for st in _real(pda.body) if isinstance(st, ast.Return)]
+    if not (len(rets) == 1 and isinstance(rets[0].value, ast.Call) and ast.unparse(rets[0].value.func) == 'da.map_blocks'
+            and rets[0].value.args and ast.unparse(rets[0].value.args[0]) == '_put_map_blocks'
+            and [ast.unparse(k.value) for k in rets[0].value.keywords if k.arg == 'store'] == ['self']):
+        raise TranslateError('%s: put_dask_array does not return da.map_blocks(_put_map_blocks, ..., store=self)' % CS)
+    out.append('Definition c08_put_dask_array_maps : string := %s.' % coq_string('_put_map_blocks'))
+
+
+ITEMS = [item_c08_error_maps, item_c08_classes, item_c08_absorb, item_c08_npy_protocol, item_c08_checks, item_c08_lostmap,
+         item_c08_s3_detect, item_c08_s3_status, item_c08_s3_put]
